@@ -121,6 +121,33 @@ def judge(t):
                     last_ast = ast2
         if c.kw.get('ast') is not ast and c.kw.get('ast') != ast and not multi:
             V('C08.3-source-order', 'code for %s was generated from a tree that did not come from the first source supplying it (source %d)' % (c.mib, a['src']), what='wrong-tree')
+    # 3c. ground truth: with nothing injected, the first source that (by the scenario) holds a healthy copy supplies it
+    if not t.world.fired and not scn.get('inject') and not scn.get('alias') and not scn.get('second') and t.second is None:
+        for name, al in sorted(byname.items()):
+            if name not in scn['modules'] or scn['modules'][name].get('variant', 'ok') != 'ok' or name in scn.get('files', {}):
+                continue
+            if any(name in v_ for v_ in scn.get('files', {}).values()):
+                continue
+            want = None
+            from verif.gen import mibgen as _mg
+            for i, s_ in enumerate(scn.get('sources', ())):
+                h = s_.get('holds', {}).get(name)
+                if h is None or h.get('o', 'ok') != 'ok':
+                    continue
+                v_ = (h.get('variants') or {}).get(name, 'ok')
+                if v_ in ('lex', 'lexpct', 'syntax', 'forbidden', 'cut', 'cutmacro', 'empty', 'dupsym', 'unkparent'):
+                    continue          # this copy cannot be loaded: the next source is tried
+                if v_ != 'ok':
+                    want = None       # a copy whose defect may or may not stop loading: not judged
+                    break
+                want = i
+                break
+            if want is None:
+                continue
+            got = [a['src'] for a in al if a['ok']]
+            if got[:1] != [want]:
+                V('C08.3-source-order', 'source %d is the first to hold a healthy copy of %s, but the text came from %s' % (want, name, got[:1] or 'nowhere'),
+                  what='first-holder-ground-truth')
     if any(sp.get('imports') and n in sp['imports'] for n, sp in scn['modules'].items()):
         t.world.probe('self-import')
     return viol
